@@ -72,7 +72,7 @@ def run(tier, seed):
     rng = ck.rng
     keys = chaingen.Keys()
     reqs, wants = [], []
-    ntr = 12 if tier == 'quick' else 80
+    ntr = 16 if tier == 'quick' else 100
     for trial in range(ntr):
         with chaingen.Env(period=50) as env:
             nk = rng.choice([1, 2, 3, 4])
@@ -89,13 +89,21 @@ def run(tier, seed):
             used0 = []
             spendable = sum(v for (v, pk) in head.utxo.values() if pk in wkeys)
             prev_used = set()
+            used_ids = set()
             failed_before = False
             for q in range(rng.choice([3, 5, 8])):
                 remaining = sum(v for ref, (v, pk) in head.utxo.items() if pk in wkeys and ref not in prev_used)
+                if remaining == 0:
+                    break
                 fee = rng.choice([0, 0, 1, 7])
-                mode = rng.choice(['small', 'small', 'exact', 'above', 'half', 'one-less'])
+                mode = rng.choice(['small', 'prefix', 'prefix', 'above', 'half', 'one-less'] + (['exact'] if q >= 2 else []))
                 if mode == 'small':
                     amount = rng.choice([1, 2, 3, 10])
+                elif mode == 'prefix':
+                    # amount + fee lands exactly on a greedy prefix sum of the unused outputs in scan order
+                    scan = [(rid, v) for _, refs in hold for rid, v in refs if rid not in used_ids]
+                    j = rng.randrange(1, len(scan) + 1) if scan else 0
+                    amount = sum(v for _, v in scan[:j]) - fee
                 elif mode == 'exact':
                     amount = remaining - fee
                 elif mode == 'above':
@@ -160,6 +168,7 @@ def run(tier, seed):
                     if any(x in prev_used for x in refs):
                         ck.violation('input-reused', 'an output used by an earlier spend of this wallet is spent again', rp)
                     prev_used |= set(refs)
+                    used_ids |= set(idm(x) for x in refs)
                     model_wants.append([1, [idm(x) for x in refs], amount, None if ch == 0 else ch])
                 model_reqs.append([amount, fee])
             reqs.append(('spend_run', [], [used0, hold, model_reqs]))
